@@ -17,11 +17,21 @@ RULE = ("cases: Circuit.decomposition(U, block, ...) on U in {Haar-random (Matri
         "by the extracted proved checker (close_to / diag_equiv, eps = precision); the elimination is replayed by the "
         "extracted model with the solver's answers as transcript and compared item by item with the recorded "
         "decompose_triangle list, the final component list and the final matrix. Non-trivial: size >= 3, a circuit was "
-        "returned and it holds at least one block; distinct by (matrix entries, block, flags).")
+        "returned and it holds at least one block; distinct by (matrix entries, block, flags). Two further streams: "
+        "WEAKLY COUPLED modes (blockdiag(Haar(k), I) @ Givens(a, b, eps), diagonal phases times that, one or several small "
+        "rotations, eps log-uniform in [1e-8, 1e-1]: entries far below / just below / just above / far above the precision) "
+        "and TIGHT PRECISION (4e-9, 6e-9 with max_try=30) where tries are abandoned partway and a later one succeeds. The "
+        "verdict is always against the ORIGINAL request; the caller's matrix object must be unchanged beyond entries <= "
+        "precision.")
 TRUSTED = ["model: coq/Model/Decomp.v (hand-written; tied to /repo by the replay stream of this check)",
            "the numerical solver (scipy L-BFGS-B from random starts, sympy inverse/lambdify) is an ORACLE: its answers are "
            "validated per instance by the proved checker, never assumed correct"]
-ASSUMPTIONS = ["the numerical solver is an oracle: convergence is not proved; 'found within max_try' for universal blocks is a "
+ASSUMPTIONS = ["tolerance: eps = the stated precision, entrywise. A result between precision and (m-1)*precision is reported "
+               "under the signature precision-exceeded:accumulated-sub-precision-residuals (each nulled or dropped entry is "
+               "tested against `precision` one by one; up to m-1 of them add up in a column), anything beyond as wrong-matrix",
+               "completeness ('a universal block is found within max_try') is required at the default precision only; with "
+               "precision < 1e-8 (below the solver's accuracy) None is counted, not reported",
+               "the numerical solver is an oracle: convergence is not proved; 'found within max_try' for universal blocks is a "
                "counted success rate on the stream (must be 100 %)",
                "theorems assume an exact oracle (returned block nulls its entry exactly, |x| <= precision means x = 0); "
                "in floating point this holds to ~1e-9, which the checker measures per instance (eps = precision = 1e-6)",
@@ -121,7 +131,55 @@ def gen_matrix(np, pcvl, rng, kind, m):
             E[i:i + 2, i:i + 2] = haar(2)
             M = E @ M
         return M
+    if kind == "weak":
+        return gen_weak(np, pcvl, rng, m)[1]
     raise ValueError(kind)
+
+
+def givens(np, m, a, b, eps):
+    g = np.eye(m, dtype=complex)
+    g[a, a] = g[b, b] = math.cos(eps)
+    g[a, b] = -math.sin(eps)
+    g[b, a] = math.sin(eps)
+    return g
+
+
+def gen_weak(np, pcvl, rng, m):
+    """Exact unitaries with a WEAKLY coupled mode: blockdiag(Haar(k), I) @ Givens(a, b, eps), diagonal phases times
+    that, a single small rotation, products of several small rotations; eps log-uniform over [1e-8, 1e-1], so that
+    entries sit far below / just below / just above / far above `precision`. Returns (description, U)."""
+    def eps():
+        return 10.0 ** (-8 + 7 * rng.below(1 << 30) / float(1 << 30))
+
+    def haar_pad(k):
+        M = np.eye(m, dtype=complex)
+        if k > 1:
+            M[:k, :k] = np.array(pcvl.Matrix.random_unitary(k))
+        return M
+
+    def ang():
+        return rng.below(1 << 30) / float(1 << 30) * 2 * math.pi
+
+    sub = rng.choice(["haar+givens", "haar+givens", "phases.haar+givens", "rotation", "rotations"])
+    if sub in ("haar+givens", "phases.haar+givens"):
+        k = rng.rint(1, m - 1)
+        e = eps()
+        a, b = rng.below(k), rng.rint(k, m - 1)
+        U = haar_pad(k) @ givens(np, m, a, b, e)
+        if sub.startswith("phases"):
+            U = np.diag([complex(math.cos(t), math.sin(t)) for t in [ang() for _ in range(m)]]) @ U
+        return {"sub": sub, "eps": [e], "k": k, "pair": [a, b]}, U
+    if sub == "rotation":
+        e = eps()
+        a = rng.below(m - 1)
+        return {"sub": sub, "eps": [e], "pair": [a, a + 1]}, givens(np, m, a, a + 1, e)
+    es = [eps() for _ in range(rng.rint(2, 4))]
+    U = np.eye(m, dtype=complex)
+    for e in es:
+        a = rng.below(m - 1)
+        b = rng.rint(a + 1, m - 1)
+        U = U @ givens(np, m, a, b, e)
+    return {"sub": sub, "eps": es}, U
 
 
 # ------------------------------------------------------------------ one case
@@ -204,6 +262,10 @@ def run_case(env, cfg, U):
     kw = dict(phase_shifter_fn=PS if cfg["phase"] else None, permutation=PERM if cfg["perm"] else None,
               inverse_h=cfg["inv_h"], inverse_v=cfg["inv_v"], ignore_identity_block=cfg["iib"], merge=cfg["merge"],
               max_try=cfg["max_try"])
+    prec = float(cfg.get("precision", 1e-6))
+    if "precision" in cfg:
+        kw["precision"] = prec
+    precq = frac_of_float(prec)
     if cfg["constraints"]:
         kw["constraints"] = [(None, 0.0), (None, math.pi / 2), (None, None)]
     Uin = pcvl.Matrix(U.copy())
@@ -214,10 +276,21 @@ def run_case(env, cfg, U):
     except Exception as e:  # noqa
         return "exception", [(f"exception-{type(e).__name__}", f"Circuit.decomposition raised {type(e).__name__}: {e}",
                               "a circuit or None", repr(e)[:300])]
+    env["last_info"] = {"tries": len(rec.calls), "abandoned": sum(1 for x in rec.calls if x is None)}
+    # the caller's matrix object: entries <= precision may be overwritten with 0 by the elimination (unchanged code,
+    # `u[n, j] = 0` on the argument itself); anything larger means the request was reduced in place
+    drift = float(abs(np.array(Uin) - U).max())
+    if drift > prec:
+        fails.append(("caller-matrix-modified", "the matrix object passed to Circuit.decomposition was modified by the call",
+                      f"entries unchanged (up to entries <= precision={prec:g} set to 0)", f"max change {drift:.3e}"))
+    elif drift > 0:
+        ctx.count("note.caller-matrix-sub-precision-entries-zeroed")
     if C is None:
-        if universal:
-            fails.append(("universal-block-not-found", f"no circuit within max_try={cfg['max_try']} for a universal block",
-                          "a circuit", "None"))
+        if universal and prec >= 1e-6:
+            # completeness sentence of the property; on inputs with a weakly coupled mode /repo itself fails it
+            sig = "universal-block-not-found" + (":weakly-coupled-mode" if cfg.get("kind") == "weak" else "")
+            fails.append((sig, f"no circuit within max_try={cfg['max_try']} for a universal block "
+                               f"({env['last_info']['tries']} tries, all abandoned)", "a circuit", "None"))
         return "none", fails
     V = np.array(C.compute_unitary())
     # premise of the inversion theorem on the real block; when /repo violates it, that root cause is reported and its
@@ -237,20 +310,34 @@ def run_case(env, cfg, U):
     tag = ("-inverse_h" if cfg["inv_h"] else "") + ("-inverse_v" if cfg["inv_v"] else "") + \
           ("-bs-phase-block" if cfg["block"] in BS_PHASE_BLOCKS else "")
     # ---- (a) proved checker on the returned circuit
-    eps2 = PREC * PREC
+    # judged against the ORIGINAL request U (not the object handed to the call). eps = the stated precision; a result
+    # that misses it but stays within (m-1)*precision is the accumulation of individually accepted residuals (each
+    # nulled or dropped entry is only tested against `precision`, up to m-1 of them add up in a column): reported
+    # under its own signature; anything beyond is a wrong matrix.
+    eps2 = precq * precq
+    eps2_acc = eps2 * max(1, m - 1) ** 2
     Vq, Uq = qmat(V, qgrid), qmat(U, qgrid)
-    if cfg["phase"]:
-        ok = ctx.model.run([(1200, [eps2, m, Vq, Uq])])[0]
-        if ok != 1 and not premise_broken:
+    side = 1 if cfg["inv_h"] else 0
+
+    def judge(e2):
+        if cfg["phase"]:
+            return ctx.model.run([(1200, [e2, m, Vq, Uq])])[0] == 1
+        return ctx.model.run([(1201, [e2, m, side, Vq, Uq])])[0] == 1
+
+    if not premise_broken and not judge(eps2):
+        if m > 2 and judge(eps2_acc):
+            fails.append(("precision-exceeded:accumulated-sub-precision-residuals",
+                          "returned circuit misses the stated precision by less than the factor m-1: entries at or below "
+                          "the precision that were dropped / accepted one by one add up",
+                          f"entrywise error <= {prec:g}", f"max |V-U| = {abs(V - U).max():.3e} (m = {m})"))
+        elif cfg["phase"]:
             fails.append(("wrong-matrix" + tag, "returned circuit's matrix differs from the requested one beyond the precision",
-                          "entrywise |V-U| <= 1e-6", f"max |V-U| = {abs(V - U).max():.3e}"))
-    else:
-        side = 1 if cfg["inv_h"] else 0
-        ok = ctx.model.run([(1201, [eps2, m, side, Vq, Uq])])[0]
-        if ok != 1 and not premise_broken:
+                          f"entrywise |V-U| <= {prec:g}", f"max |V-U| = {abs(V - U).max():.3e} after "
+                          f"{env['last_info']['abandoned']} abandoned tries"))
+        else:
             fails.append(("wrong-matrix-up-to-diagonal" + tag,
                           "returned circuit's matrix is not the requested one up to a diagonal phase matrix "
-                          + ("(left)" if side else "(right)"), "V = D U / U D within 1e-6", "checker refused"))
+                          + ("(left)" if side else "(right)"), f"V = D U / U D within {prec:g}", "checker refused"))
     # ---- (b) structure: only block copies, PS (if requested), PERM (if requested)
     comps = list(C._components)
     if cfg["merge"]:
@@ -370,7 +457,7 @@ def run(ctx):
         cases.append((kind, 4, base_cfg(perm=True, block="mzi")))
         cases.append((kind, 4, base_cfg(perm=True, iib=False, block="bs_tr", phase=False)))
     # random part
-    n_rand = ctx.n(70, 900)
+    n_rand = ctx.n(50, 900)
     for _ in range(n_rand):
         kind = rng.choice(KINDS)
         m = rng.choice([2, 3, 3, 4, 4, 5, 5, 6]) if not ctx.quick() else rng.choice([2, 3, 3, 4, 4, 5, 6])
@@ -381,15 +468,53 @@ def run(ctx):
                        max_try=10 if b in uni else 2)
         cases.append((kind, m, cfg))
 
+    n_main = len(cases)
+    # weakly coupled modes (default precision): entries far below / just below / just above / far above `precision`;
+    # the solver often needs several tries here, so abandoned-then-successful retries are exercised as well
+    n_weak = ctx.n(34, 500)
+    for _ in range(n_weak):
+        m = rng.choice([2, 3, 4, 4, 5])
+        b = rng.choice(["mzi", "mzi", "mzi", "mzi_low", "bs_tr"])
+        cases.append(("weak", m, base_cfg(block=b, phase=rng.chance(4, 5), perm=rng.chance(1, 3), iib=rng.chance(7, 8))))
+    # tight but legal precision with many retries: the solver misses some cells, tries get abandoned partway and a
+    # later try must still start from the requested matrix
+    n_tight = ctx.n(8, 80)
+    for i in range(n_tight):
+        cases.append(("haar", rng.choice([3, 3, 4]), base_cfg(block=rng.choice(["mzi", "mzi", "mzi_low"]), max_try=30,
+                                                              phase=rng.chance(3, 4), perm=rng.chance(1, 4),
+                                                              precision=rng.choice([4e-9, 6e-9]))))
+    from ..framework import load_findings
+    known = {f["signature"] for f in load_findings() if f.get("property") == "C12" and f.get("status", "open") == "open"}
+    shrunk = set()
+
     stats = {"found": 0, "none": 0, "exception": 0}
     uni_total = uni_found = 0
+    weak_total = weak_found = tight_total = tight_found = retried_ok = abandoned_total = 0
     t0 = time.time()
     for idx, (kind, m, cfg) in enumerate(cases):
-        U = gen_matrix(np, pcvl, rng, kind, m)
+        cfg = dict(cfg, kind=kind)
+        meta = None
+        if kind == "weak":
+            meta, U = gen_weak(np, pcvl, rng, m)
+        else:
+            U = gen_matrix(np, pcvl, rng, kind, m)
+        env["last_info"] = {"tries": 0, "abandoned": 0}
         status, fails = run_case(env, cfg, U)
+        info = dict(env["last_info"])
         stats[status] += 1
+        abandoned_total += info["abandoned"]
+        if status == "found" and info["abandoned"] > 0:
+            retried_ok += 1
+            ctx.count("result.found-after-abandoned-tries")
         universal = env["blocks"][cfg["block"]][0]
-        if universal:
+        tight = cfg.get("precision", 1e-6) < 1e-6
+        if kind == "weak":
+            weak_total += 1
+            weak_found += status == "found"
+        elif tight:
+            tight_total += 1
+            tight_found += status == "found"
+        elif universal:
             uni_total += 1
             uni_found += status == "found"
         ctx.count(f"kind.{kind}")
@@ -400,15 +525,34 @@ def run(ctx):
             if cfg[f]:
                 ctx.count(f"flag.{f}")
         nontrivial = status == "found" and m >= 3
-        ctx.case([kind, m, sorted(cfg.items()), [[repr(x) for x in row] for row in U.tolist()]], nontrivial,
-                 {"kind": kind, "m": m, "config": cfg, "status": status, "failures": [f[0] for f in fails]})
+        sample = {"kind": kind, "m": m, "config": cfg, "status": status, "tries": info["tries"],
+                  "abandoned_tries": info["abandoned"], "failures": [f[0] for f in fails]}
+        if meta:
+            sample["weak"] = meta
+        ctx.case([kind, m, sorted(cfg.items()), [[repr(x) for x in row] for row in U.tolist()]], nontrivial, sample)
         for sig, what, exp, obs in fails:
-            case = shrink(env, sig, kind, m, cfg, U)
+            if sig in known or sig in shrunk:
+                case = describe(cfg, U)          # recorded defect / already shrunk once: keep the raw case
+            else:
+                shrunk.add(sig)
+                case = shrink(env, sig, kind, m, cfg, U)
+            if meta:
+                case["weak"] = meta if case["U"] == describe(cfg, U)["U"] else "matrix regenerated by the shrinker (same generator)"
             ctx.fail(sig, what, case, expected=str(exp)[:500], observed=str(obs)[:500])
-    ctx.streams["decomposition"] = len(cases)
+    ctx.streams["decomposition"] = n_main
+    ctx.streams["weakly-coupled"] = n_weak
+    ctx.streams["tight-precision-retries"] = n_tight
     ctx.streams["universal-found-rate"] = f"{uni_found}/{uni_total}"
-    ctx.notes.append(f"universal blocks: {uni_found}/{uni_total} decomposed within max_try; results {stats}; "
-                     f"{time.time() - t0:.1f}s")
+    ctx.streams["weakly-coupled-found-rate"] = f"{weak_found}/{weak_total}"
+    ctx.streams["tight-precision-found-rate"] = f"{tight_found}/{tight_total}"
+    ctx.streams["found-after-abandoned-tries"] = retried_ok
+    ctx.notes.append(f"universal blocks: {uni_found}/{uni_total} decomposed within max_try (Haar/permutation/block/diagonal/"
+                     f"sparse inputs, default precision); weakly coupled inputs {weak_found}/{weak_total}; tight precision "
+                     f"{tight_found}/{tight_total} (None accepted there: precision below the solver's accuracy); "
+                     f"{abandoned_total} abandoned tries in all, {retried_ok} circuits returned after at least one "
+                     f"abandoned try; results {stats}; {time.time() - t0:.1f}s")
+    if retried_ok == 0:
+        ctx.notes.append("WARNING: no case of this run returned a circuit after an abandoned try")
     # extraction cross-check on a small sample (same requests evaluated by vm_compute inside Coq)
     A = [[QI(1), QI(0)], [QI(0), QI(Fraction(1, 2), Fraction(1, 3))]]
     B = [[QI(1), QI(0)], [QI(Fraction(1, 1000)), QI(Fraction(1, 2), Fraction(1, 3))]]
